@@ -242,7 +242,9 @@ func (x *exec) compareStates(fr *frame, s0, mid, s1 *State, kind, label string, 
 					v0, v1 := Sel(Sel(x.h.get(s0, vn, vs), m0), k), Sel(Sel(x.h.get(s1, vn, vs), m1), k)
 					n0 := Ite(Eq(m0, "0"), x.c.ILit(0), Sel(x.h.get(s0, cn, cs), m0))
 					n1 := Ite(Eq(m1, "0"), x.c.ILit(0), Sel(x.h.get(s1, cn, cs), m1))
-					same := And(Eq(d1, d0), Imp(d0, Eq(v1, v0)), Eq(n1, n0))
+					// (the cardinalities are not compared: equal domains for an arbitrary key are equal sets)
+					_, _ = n0, n1
+					same := And(Eq(d1, d0), Imp(d0, Eq(v1, v0)))
 					goal = Or(goal, Imp(kwf, same))
 				}
 				wfHyp = Or(Eq(m0, "0"), Sel(alive0, m0))
